@@ -104,6 +104,25 @@ theorem gcUsage_from (s : Store) (nm : String) : ∀ y' ∈ (s.gcUsage nm).1.usa
       · exact fun y' hy' => .inl ⟨y', hy', rfl, rfl, rfl⟩
       · exact deleteUsage_from s nm
 
+theorem reapplyUsage_from (s : Store) (nm c : String) : ∀ y' ∈ (s.reapplyUsage nm c).1.usages,
+      (∃ y ∈ s.usages, y.name = y'.name ∧ y.of = y'.of ∧ y.ready = y'.ready) ∨ y'.ready = false := by
+  intro y' hy'
+  unfold Store.reapplyUsage at hy'
+  split at hy'
+  · exact .inl ⟨y', hy', rfl, rfl, rfl⟩
+  · next x hg =>
+    have hx := getU_some hg
+    split at hy'
+    · exact .inl ⟨y', hy', rfl, rfl, rfl⟩
+    · split at hy'
+      · exact .inl ⟨y', hy', rfl, rfl, rfl⟩
+      · split at hy'
+        · exact .inl ⟨y', hy', rfl, rfl, rfl⟩
+        · rw [bump_usages] at hy'
+          rcases mem_putU.mp hy' with ⟨hy'', _⟩ | ⟨rfl, _⟩
+          · exact .inl ⟨y', hy'', rfl, rfl, rfl⟩
+          · exact .inl ⟨x, hx.1, rfl, rfl, rfl⟩
+
 theorem gcUsage_res (s : Store) (nm : String) : (s.gcUsage nm).1.res = s.res := by
   unfold Store.gcUsage
   split
@@ -156,6 +175,9 @@ theorem SerialInv.exec {sys : Sys} (h : SerialInv sys) (a : Action) (hf : a.fres
   | gcU n =>
     exact h.envStep hbase (h.marker.gcUsage n) fun t ht =>
       serialFacts_usageChange (h.facts t ht) (gcUsage_res _ n) (gcUsage_from _ n)
+  | xa n c =>
+    exact h.envStep hbase (h.marker.reapplyUsage n c) fun t ht =>
+      serialFacts_usageChange (h.facts t ht) (reapplyUsage_res _ n c) (reapplyUsage_from _ n c)
   | gcR g k n =>
     exact h.envStep hbase (h.marker.gcRes g k n) fun t ht =>
       serialFacts_resChange (h.base.threads t ht) (h.facts t ht) (SameUsages.gcRes _ g k n).usages
